@@ -43,8 +43,10 @@ CFG = dict(
     casesv=c19_casesv,
     rule=("every script of <= 3 calls over an 8-symbol alphabet of (Write|WriteString, n, reported, err) plus every 4-call script over "
           "4 symbols (thorough: <= 4 calls over 10 symbols), each with 4 wrapped-writer kinds (io.Writer only / + io.StringWriter, "
-          "gated / free-running) x 5 consumer kinds (absent until Close, fast, slow one-at-a-time with abandoned receives, late, and the "
-          "forced schedule 'first update delivered, then busy until Close' confirmed by observation); "
+          "gated / free-running) x 5-6 consumer kinds (absent until Close, fast, slow one-at-a-time with abandoned receives, late, and the "
+          "forced schedule 'first update delivered, then busy until Close' confirmed by observation); for the gated kinds also the "
+          "consumer that receives the last update, stays busy and polls Size() from its own goroutine while Close() is pending before it "
+          "receives again; one run (thorough: two) with a consumer arriving 1.5 s (6 s) after Close() was called, beside the sweep; "
           "plus seeded random scripts of 1-40 calls with counts up to 65535; non-trivial = distinct case lines "
           "(script + observed sizes + received sequence)"),
     trusted_base=[HARNESS_TB, EXTRACT_TB,
